@@ -638,3 +638,26 @@ if __name__ == "__main__":
                 print("----", w, "use", uid, "line", ln, "strict", lo, "reported", r, "liberal", hi); print(src)
         sys.exit(0)
     print(sandwich(int(sys.argv[1]) if len(sys.argv) > 1 else 1, int(sys.argv[2]) if len(sys.argv) > 2 else 300, int(sys.argv[3]) if len(sys.argv) > 3 else 2))
+
+
+def r_add_composite(rec):
+    """FunctionScope._add_composite on the real class: a composite of depth n must be indexed under its root name and under each of its n-1 proper prefixes"""
+    from collections import defaultdict
+    from pyanalyze.stacked_scopes import CompositeVariable, FunctionScope
+    from pyanalyze.value import KnownValue
+    for attrs in [("a",), ("a", "b"), ("a", "b", "c"), (KnownValue(0), KnownValue(0)), ("p", KnownValue(1), "v", "w")]:
+        scope = FunctionScope.__new__(FunctionScope)
+        scope.name_to_composites = defaultdict(set)
+        var = CompositeVariable("x", attrs)
+        scope._add_composite(var)
+        if var not in scope.name_to_composites["x"]:
+            return True, f"_add_composite({var}): the composite is not indexed under its root name 'x'"
+        for i in range(1, len(attrs)):
+            parent = CompositeVariable("x", attrs[:i])
+            if var not in scope.name_to_composites.get(parent, ()):
+                return True, (f"_add_composite({var}): not indexed under its ancestor {parent}; an assignment to that ancestor (FunctionScope.set walks name_to_composites[ancestor]) "
+                              f"will not reset what was narrowed about the composite")
+    return False, "every composite of depth <= 4 is indexed under its root and every proper prefix"
+
+
+REPLAYERS["pyanalyze.stacked_scopes.FunctionScope._add_composite"] = r_add_composite
